@@ -120,7 +120,7 @@ Definition sx_rpc (p : rpc) : sx :=
 Definition sx_wpc (p : wpc) : sx :=
   sym match p with WNotStarted => "NotStarted" | WWait => "Wait" | WHand _ => "Hand" | WIoHand => "IoHand" | WDead => "Dead" end.
 Definition sx_wstate (w : wstate) : sx :=
-  sym match w with KIdle => "Idle" | KBusy _ _ _ _ => "Busy" | KHandFal _ _ => "HandFal" | KExited => "Exited" end.
+  sym match w with KIdle => "Idle" | KBusy _ _ _ _ => "Busy" | KHandFal _ _ _ => "HandFal" | KExited => "Exited" end.
 
 Definition count_ev (f : sevent -> bool) (h : list sevent) : nat := length (filter f h).
 
